@@ -371,3 +371,41 @@ Example split_push_nonvacuous :
   lang (split_node ex_g 1 1 5) 0 = lang ex_g 0 /\
   lang (push_right ex_g 1 1) 0 = lang ex_g 0.
 Proof. vm_compute. repeat split; reflexivity. Qed.
+
+(* ---- bubble creation as an algorithm (Model/AbsGraph.add_bubbles, Proofs/BubbleProofs.v) ----
+   add_bubbles ref vs cuts the reference chain at every record boundary and adds, for record j, one sibling node
+   carrying v_alt (labelled j) that leaves the chain at v_s and re-joins it at v_e (the design of
+   ThreeFrameTVG.create_variant_graph / apply_variant).  MAIN THEOREM of Appendix B: for EVERY reference and EVERY
+   well-formed record list sorted by start -- overlapping, nested and abutting records included -- the language of
+   that graph is exactly the set of haplotype sequences of the reference semantics:
+       { (Spec.apply_hap ref H, indices of H) | H = select m vs, pairwise false H }      (H = [] is the reference)
+   Compatibility is Spec's permissive one (compat false: disjoint, abutting allowed = the MAY semantics that
+   `realizable` uses); the obliged haplotypes (compat true) are a subset: Props/C01.v add_bubbles_complete. *)
+From MoPep Require Import Proofs.BubbleProofs.
+
+Theorem add_bubbles_lang : forall ref vs, bb_wf ref vs = true -> bb_sorted vs = true ->
+  forall w, In w (lang (add_bubbles ref vs) 0) <->
+    exists m, length m = length vs /\ pairwise false (select m vs) = true /\
+              w = (apply_hap ref (select m vs), ids_of_mask 0 m).
+Proof. exact add_bubbles_lang_lemma. Qed.
+Print Assumptions add_bubbles_lang.
+
+(* the same as an equality of sets with the executable enumeration bubble_spec (what the stream `graph` compares
+   the real dumped TVG with, through the extracted functions) *)
+Theorem add_bubbles_is_spec : forall ref vs, bb_wf ref vs = true -> bb_sorted vs = true ->
+  forall w, In w (lang (add_bubbles ref vs) 0) <-> In w (bubble_spec ref vs).
+Proof. exact add_bubbles_spec_lemma. Qed.
+Print Assumptions add_bubbles_is_spec.
+
+(* Non-vacuity, with an overlapping pair (records 0 and 1 both start at 2; 1 = deletion [2,5) covers record 2), an
+   abutting pair (0 = [2,3) then 2 = insertion at [3,4)) and a free record 3: ten words, none carries 0 and 1 or
+   1 and 2 together *)
+Definition ex_bb_ref : seq := [65;84;71;71;67;84;65;65].
+Definition ex_bb_vs : list variant :=
+  [mkVar 2 3 [67] true; mkVar 2 5 [71] true; mkVar 3 4 [65;65] true; mkVar 5 6 [67] true].
+Example add_bubbles_overlap_example :
+  bb_wf ex_bb_ref ex_bb_vs = true /\ bb_sorted ex_bb_vs = true /\
+  map snd (lang (add_bubbles ex_bb_ref ex_bb_vs) 0) = [[]; [3]; [2]; [2;3]; [0]; [0;3]; [0;2]; [0;2;3]; [1]; [1;3]] /\
+  forallb (fun w => mem_seq (fst w) (map fst (bubble_spec ex_bb_ref ex_bb_vs))) (lang (add_bubbles ex_bb_ref ex_bb_vs) 0) = true /\
+  In ([65;84;71;84;65;65], [1]) (lang (add_bubbles ex_bb_ref ex_bb_vs) 0).
+Proof. vm_compute. repeat split; try reflexivity. right. right. right. right. right. right. right. right. now left. Qed.
